@@ -10,6 +10,7 @@
 //  5 enum class key, prototype void(Color, Val), ArgumentPassingIncludeEvent
 //  7 event excluded from the prototype AND a non-identity getEvent policy: prototype void(Val), getEvent(code, val) = code >> 8
 //  8 int key, prototype void(int, Val &): listeners modify the argument; the next listener and the caller see the modification
+//  9 getEvent policy returning a const reference; the event object is convertible to the key type (to a different value)
 //  6 std::string key by value, prototype void(std::string, uint32_t) (thorough)
 // MAPK: 0 default map, 1 std::map, 2 std::unordered_map.
 // Keys are symbolic: three registered keys k1,k2,k3 and a dispatched key kd -- the solver partitions them into
@@ -54,7 +55,11 @@ struct MoveKey {
 namespace std { template <> struct hash<MoveKey> { size_t operator()(const MoveKey & m) const noexcept { return m.k; } }; }
 
 enum class Color : uint32_t { };
+#if CFG == 9
+struct Ev { uint32_t type; uint32_t extra; operator uint32_t() const { return extra; } };   // converts to the key type, but NOT to the event the policy yields
+#else
 struct Ev { uint32_t type; uint32_t extra; };
+#endif
 
 template <typename K, typename V> using StdMap = std::map<K, V>;
 template <typename K, typename V> using HashMap = std::unordered_map<K, V>;
@@ -83,6 +88,9 @@ using Key = int; struct Pol : PolBase { using ArgumentPassingMode = eventpp::Arg
 using Key = MoveKey; struct Pol : PolBase {}; using D = DTYPE<Key, void(MoveKey, uint32_t), Pol>;
 #elif CFG == 3
 using Key = uint32_t; struct Pol : PolBase { static uint32_t getEvent(const Ev & e, const Val &) { return e.type; } }; using D = DTYPE<Key, void(const Ev &, Val), Pol>;
+#elif CFG == 9
+// a getEvent policy that returns a REFERENCE into its argument, on an event type that is itself convertible to the key
+using Key = uint32_t; struct Pol : PolBase { static const uint32_t & getEvent(const Ev & e, const Val &) { return e.type; } }; using D = DTYPE<Key, void(const Ev &, Val), Pol>;
 #elif CFG == 4
 using Key = uint32_t; struct Pol : PolBase { static uint32_t getEvent(Ev e, Val v) { (void)v; return e.type; } }; using D = DTYPE<Key, void(Ev, Val), Pol>;
 #elif CFG == 7
@@ -143,7 +151,7 @@ static void add_listeners(D & d, const Key & k, uint32_t base)
 #elif CFG == 2
 	d.appendListener(k, [base](MoveKey e, uint32_t a) { rec(base, e.k, a, e.state); MoveKey sink(std::move(e)); (void)sink; });
 	d.appendListener(k, [base](const MoveKey & e, uint32_t a) { rec(base + 1, e.k, a, e.state); });
-#elif CFG == 3 || CFG == 4
+#elif CFG == 3 || CFG == 4 || CFG == 9
 	d.appendListener(k, [base](const Ev & e, Val v) { rec(base, e.type, v.x, v.state); Val sink(std::move(v)); (void)sink; });
 	d.appendListener(k, [base](const Ev & e, const Val & v) { rec(base + 1, e.type, v.x, v.state); });
 #elif CFG == 5
